@@ -473,3 +473,20 @@ Proof.
   { unfold nlen. cbn [length]. rewrite app_length. cbn [tq length]. lia. }
   rewrite En. reflexivity.
 Qed.
+
+(* lindent is indent() on the text: for a layout whose token pieces contain no newline (names,
+   numbers, punctuators, quoted strings), flattening the indented layout is indenting the text;
+   a block-string piece one level deeper is the indented text of the piece. *)
+Definition piece_line (p : piece) : Prop :=
+  match p with PTok k v => indent_bytes (render_piece (PTok k v)) = render_piece (PTok k v) | _ => True end.
+
+Lemma flat_lindent : forall L, Forall piece_line L -> flat (lindent L) = indent_bytes (flat L).
+Proof.
+  intros L H. induction H as [|p L Hp _ IH]; [reflexivity|].
+  change (flat (lindent (p :: L))) with (render_piece (match p with PSep s => PSep (indent_bytes s) | PBlk d s => PBlk (N.succ d) s | t => t end) ++ flat (lindent L)).
+  change (flat (p :: L)) with (render_piece p ++ flat L). rewrite indent_app, IH. f_equal.
+  destruct p as [k v|s|d s].
+  - symmetry. exact Hp.
+  - reflexivity.
+  - cbn [render_piece]. rewrite !indent_app, N.iter_succ. reflexivity.
+Qed.
